@@ -11,7 +11,12 @@ COMMON_NOTE = (
     "canonicalisation in harness/sut.py, Fraction/JSON wire, Lean driver decoding); float64 is treated as exact on the dyadic "
     "input lattice (DESIGN.md §3); numpy/pandas/xarray/geographiclib behaviour is modelled, not verified. C01, C03, C04, C09, C11, C12, C14, C19, C20 also "
     "have source pins: literal tables and signature defaults read from /repo by harness/extract.py (Python ast) and checked by the kernel against "
-    "IoosQc/Theorems/SourcePin.lean on every run."
+    "IoosQc/Theorems/SourcePin.lean on every run. C03, C09, C10 additionally have a TRANSLATED model: harness/translate.py regenerates the array-level "
+    "Lean definitions of gross_range_test, spike_test and rate_of_change_test from /repo's current source on every run and the kernel checks that they are the "
+    "definitions of IoosQc/Model/NpSrc.lean, which Theorems/NpSrc + NpRefine prove equal to the pointwise models (numpy.ma's data-under-mask semantics "
+    "modelled in Model/Np and compared primitive by primitive with the installed numpy on every run); a rewritten body makes that pin 'reshaped' — "
+    "nothing is claimed from it and the correspondence run remains the tie. C05, C06, C18 also compare complete real runs with the pipeline model "
+    "IoosQc.systemRun (Model/System, Theorems/Sys)."
 )
 
 CHECKS = {
@@ -25,8 +30,11 @@ CHECKS = {
             "Lean 4 proof of the missing-discipline predicate on the model + differential correspondence"),
     "C03": ("Theorems C03_gross, C03_valid (+ corollaries): the code-shaped models of gross_range_test / valid_range_test equal "
             "the property sentence for every series, span pair and inclusivity setting; the predicate `conforms spec` is "
-            "evaluated on the real functions' output over an exhaustive span lattice and a seeded boundary generator.",
-            "Lean 4 proof (functional characterisation) + differential correspondence"),
+            "evaluated on the real functions' output over an exhaustive span lattice and a seeded boundary generator. C03_np_gross / C03_src_gross: "
+            "the array-level transcription of gross_range_test (raw data under masks, masked boolean indexes), regenerated from the source by "
+            "harness/translate.py, equals the pointwise model.",
+            "Lean 4 proof (functional characterisation; refinement of the translated array-level program to the pointwise model) + "
+            "differential correspondence + numpy-primitive correspondence"),
     "C04": ("Theorems C04_main, C04_compareAt, C04_perm, C04_dup, C04_assoc, C04_idem, C04_worst_ge/mem: the priority loop equals "
             "the maximum by precedence for every column; order / multiplicity / grouping independence proved outright; "
             "correspondence runs qartod_compare, aggregate() and PandasStore.compute_aggregate on enumerated and random vectors.",
@@ -36,11 +44,17 @@ CHECKS = {
             "covering member; calendar fields checked against pandas day by day.",
             "Lean 4 proof (fold induction) + differential correspondence incl. calendar sweep"),
     "C09": ("Theorem C09_spike (+ endpoints, threshold equality, method rejection) for both methods and all threshold "
-            "combinations; exhaustive short series over a 5-symbol alphabet plus seeded generator on the real spike_test.",
-            "Lean 4 proof (pointwise characterisation) + differential correspondence"),
+            "combinations; exhaustive short series over a 5-symbol alphabet plus seeded generator on the real spike_test. C09_np_spike / "
+            "C09_src_spike: the array-level transcription of spike_test (ref / diff arrays with raw data under masks, the write through a view, "
+            "end points, closing MISSING assignment), regenerated from the source by harness/translate.py, equals the pointwise model for both methods.",
+            "Lean 4 proof (pointwise characterisation; refinement of the translated array-level program to the pointwise model) + "
+            "differential correspondence + numpy-primitive correspondence"),
     "C10": ("Theorems C10_roc, C10_speed (+ equality, length-mismatch corollaries) over strictly increasing whole-second axes; "
-            "geodesic distance is an input of the model computed by the harness with the documented argument order.",
-            "Lean 4 proof (pointwise characterisation over Q) + differential correspondence"),
+            "geodesic distance is an input of the model computed by the harness with the documented argument order. C10_np_roc / C10_src_roc: the "
+            "array-level transcription of rate_of_change_test, regenerated from the source by harness/translate.py, equals the pointwise model. "
+            "Timestamps with a fractional second are covered through the whole-second axis of their elapsed times.",
+            "Lean 4 proof (pointwise characterisation over Q; refinement of the translated array-level program) + differential correspondence "
+            "+ numpy-primitive correspondence"),
     "C11": ("Theorem C11_flat: window lemma, floor lemma and override resolution for regular sampling, any durations and "
             "tolerances; sweeps of n, k_s, k_f and plateau lengths on the real flat_line_test.",
             "Lean 4 proof (window characterisation) + differential correspondence"),
@@ -62,12 +76,19 @@ CHECKS.update({
             "subsetting mechanism equals starting <= t < ending for every window and time axis (pandas: distinct row labels), and the "
             "mask restricts every column alike; the correspondence runs every front end on generated tables / configs and compares the "
             "yielded ContextResults and a probe test's received arguments with direct calls of the real tests on the rows IoosQc.specMask "
-            "selects. What a test returns on those rows is C03-C14's business.",
-            "Lean 4 proof (refinement of each front end's window mechanism to the specification mask) + differential correspondence"),
+            "selects. What a test returns on those rows is C03-C14's business. C05_sys_*: the composed pipeline model IoosQc.runStream / systemRun "
+            "(Config.contexts grouping -> window rows -> Call.run binding -> test model -> collection) yields exactly one result per configured "
+            "(context, present stream, test), the direct call on the window rows (C05_sys_yield_sound / _complete), the same for every front-end "
+            "mechanism, untouched by rows outside the window; complete real runs are compared with that one model value. NaT rows: C05_numpy_mask_nat.",
+            "Lean 4 proof (refinement of each front end's window mechanism to the specification mask; soundness / completeness of the pipeline model) "
+            "+ differential correspondence, per context and end to end"),
     "C06": ("Theorems scatter_getD, C06_collect_spec, C06_dict_spec, C06_order_independent, C06_main: numpy boolean-mask assignment "
             "folded over any sequence of context results puts each value on the row of its rank; order independent for disjoint windows; "
-            "list and dict form agree. Correspondence on synthetic and stream-yielded ContextResult sequences in all / random orders.",
-            "Lean 4 proof (invariant of the collecting fold, permutation invariance) + differential correspondence"),
+            "list and dict form agree. Correspondence on synthetic and stream-yielded ContextResult sequences in all / random orders. "
+            "C06_sys_pieces_wf / C06_sys_collect / C06_sys_dict: in the composed pipeline model every piece is well formed (one flag per window row, by "
+            "C01_length) and the collected columns carry the last covering context's flag, for every table and configuration; complete real runs "
+            "with several contexts are compared with IoosQc.systemRun.",
+            "Lean 4 proof (invariant of the collecting fold, permutation invariance, well-formedness in the pipeline model) + differential correspondence"),
     "C07": ("Theorems C07_context, C07_layout_contexts/context/streams/modules, C07_depth_*, C07_unknown_skipped, C07_main: the layout "
             "dispatch of Config on the parsed tree yields one call per configured (stream, module, test) for all four layouts. The eight "
             "carriers (YAML / JSON / files / xarray attributes) are decoded by third-party code and are covered by the correspondence "
@@ -88,8 +109,11 @@ CHECKS.update({
     "C18": ("Theorems C18_isolation, C18_insert_fault(s), C18_alone, C18_fault_silent, C18_main: in the model every configured entry is "
             "evaluated independently, so failing entries drop out; the theorems are true by construction of a state-free model and the "
             "weight is carried by the correspondence: every fault kind at random positions on every front end, collected results compared "
-            "with each healthy test configured alone.",
-            "Lean 4 proof (independence of entries in the run model) + fault-injection correspondence on all front ends"),
+            "with each healthy test configured alone. C18_sys_isolation / _alone / _drop_failing: in the composed pipeline model (where tests are "
+            "BOUND to the stream's inputs and RUN, so 'cannot run' is computed, not declared) dropping any entries that contribute nothing — absent "
+            "stream, missing input, rejected parameters, raising callee, or simply other tests — leaves every collected column unchanged; complete "
+            "real runs with failing entries are compared with IoosQc.systemRun.",
+            "Lean 4 proof (independence of entries in the run model; isolation in the pipeline model) + fault-injection correspondence on all front ends"),
     "C19": ("Theorems C19_cfSafe_charset, C19_plain_name, C19_kept_iff, C19_main: cf_safe_name output alphabet for every string, "
             "include / exclude semantics, and the save loop writes exactly the axis, data and one flag column per kept result when names "
             "do not collide (collisions = known finding F-18); correspondence on PandasStore.save / compute_aggregate over real stream runs.",
